@@ -1,7 +1,7 @@
 (* C12/Driver.v — entry point of the correspondence run (extracted to OCaml).
    The harness polls the real futures in the order of the case's schedule and then
    round-robin until every task has finished; the model does the same. *)
-From RM Require Import C12.Model.
+From RM Require Import C12.Model C12.WakeModel.
 
 Definition script := (nat * outcome * nat)%type.     (* suspensions, answer, stats leaf id *)
 Definition dflt : script := (0, ONotFound, 0).
@@ -43,6 +43,25 @@ Definition run_case (ts : list (list key)) (scripts : list script) (nleaf : nat)
      o_req := requested s2; o_proc := processed s2;
      o_stats := stats_list nleaf (stats (sh s2));
      o_rounds := rounds; o_hung := negb (all_done c s2) |}.
+
+(* mode 1: wake-driven executor (the picks choose among the runnable tasks) *)
+Record c12_wout := {
+  w_trace : list task; w_lost : bool; w_fuel : bool;
+  w_log : list key; w_results : list (list (key * outcome));
+  w_req : nat; w_proc : nat; w_stats : list (nat * outcome)
+}.
+
+Definition run_wcase (ts : list (list key)) (scripts : list script) (nleaf : nat) (picks : list nat) : c12_wout :=
+  let c := mk_config ts scripts in
+  let '(w, trace, st) := wexec c (S (2 * work c + ntasks c)) picks (winit c) [] in
+  let s2 := base w in
+  {| w_trace := trace;
+     w_lost := match st with WLost => true | _ => false end;
+     w_fuel := match st with WFuel => true | _ => false end;
+     w_log := calls (sh s2);
+     w_results := map (fun t => results (sh s2) t) (seq 0 (ntasks c));
+     w_req := requested s2; w_proc := processed s2;
+     w_stats := stats_list nleaf (stats (sh s2)) |}.
 
 (* glue for the OCaml driver (decimal text <-> nat goes through Coq's Z; see ocaml/zconv.ml) *)
 From Coq Require Import ZArith.
